@@ -62,6 +62,32 @@ func witnesses(ops hx.Counter, withPoll bool) []Case {
 		}
 	}
 	tag("gov_poll_patterns", runPollPatterns(PollPatternParams{Seed: 9090}, ops))
+	// reward path (BeginBlock): stake caps 0.5+0.5 over-credit one unit (C10), autocompound pays the credit out of the fee collector
+	tag("stake_rewards_overcredit_shortfall", runRewards(RewardsParams{Seed: 1059, Snap: 1, Interval: 1, CapBtc: "0.5", Commission: "0.01", Compound: true, Delegators: 1, NBlocks: 48,
+		Fees: []int64{101, 103, 1000, 107, 999}, ClaimEvery: 4}, ops))
+	tag("stake_rewards_default_genesis", runRewards(RewardsParams{Seed: 9101, Snap: 1000, Interval: 17280, CapBtc: "0.25", Commission: "0.1", Compound: true, Delegators: 2, NBlocks: 40,
+		Fees: []int64{101, 103, 1000, 107, 999}, ClaimEvery: 3}, ops))
+	// evidence -> jail -> automatic SlashValidator proposal -> Apply (no dry run) -> multistaking.SlashStakingPool in EndBlock
+	tag("slash_proposal_keeper_copy_nil", runSlash(SlashParams{Seed: 9111, Delegate: "1000000ukex,5000ubtc", Vote: 1, Slash: "0.5"}, ops))
+	tag("slash_proposal_zero_ukex_burn", runSlash(SlashParams{Seed: 9112, Delegate: "5000ubtc", Vote: 1, Slash: "1"}, ops))
+	tag("slash_proposal_rejected", runSlash(SlashParams{Seed: 9113, Delegate: "1000000ukex", Vote: 3, Slash: "0.5"}, ops))
+	// the offender of a pending slash proposal rotates its address (DESIGN #16)
+	tag("recovery_rotation_rewrites_proposal", runRotation(RotationParams{Seed: 9121, Rotate: true}, ops))
+	tag("recovery_no_rotation", runRotation(RotationParams{Seed: 9122, Rotate: false}, ops))
+	// layer2: MsgCreateDappProposal validates nothing; FinishDappBootstrap runs in EndBlock after the bootstrap period
+	dp := DappParams{Bond: 1_000_000_000_000, TeamReserve: "valid", Premint: "1000", Postmint: "500", Ratio: "0.5", Drip: 86400, Denom: "dtk", Quorum: "0.33"}
+	for i, mut := range []func(*DappParams){func(d *DappParams) {}, func(d *DappParams) { d.Ratio = "-1" }, func(d *DappParams) { d.Drip = 1 << 63 },
+		func(d *DappParams) { d.TeamReserve = "not-an-address" }, func(d *DappParams) { d.Premint, d.Postmint, d.Ratio = "0", "0", "0" }, func(d *DappParams) { d.Bond = 20_000_000_000 }} {
+		d := dp
+		d.Seed = 9130 + uint64(i)
+		mut(&d)
+		tag([]string{"dapp_bootstrap_honest", "dapp_negative_pool_ratio", "dapp_drip_beyond_int64", "dapp_invalid_team_reserve", "dapp_zero_lp_supply", "dapp_bootstrap_fails_refund"}[i], runDapp(d, ops))
+	}
+	// collectives / basket end-blockers, sends to module addresses
+	tag("collective_honest", runCollective(CollectiveParams{Seed: 9141, Bond: 200_000_000_000, PoolExists: true, Quorum: "0.33", ClaimPeriod: 14400, Donation: "0.5", Dts: []int64{5, 14500, 5, 90000, 14500, 5}, Withdraw: true}, ops))
+	tag("collective_missing_pool_low_bond", runCollective(CollectiveParams{Seed: 9142, Bond: 20_000_000_000, PoolExists: false, Quorum: "2", ClaimPeriod: 1 << 63, Donation: "1", Dts: []int64{5, 14500, 90000, 5}, Withdraw: false}, ops))
+	tag("basket_honest", runBasket(BasketParams{Seed: 9151, LimitsPeriod: 86400}, ops))
+	tag("module_address_send", runModuleSend(9161, ops))
 	// the sanctioned halt
 	tag("upgrade_halt_sanctioned", runUpgrade(UpgradeParams{Seed: 9061, Instate: false, Skip: false}, ops))
 	tag("upgrade_instate_skip_no_halt", runUpgrade(UpgradeParams{Seed: 9062, Instate: true, Skip: true}, ops))
